@@ -105,7 +105,11 @@ Definition recv_ok (dev : N) (h : hist) (now : N) (m : msg) (qload allow : bool)
     (cookie_authentic h m || silent_inert o h)
   else if negb (check_mac1 dev m) then silent_inert o h
   else if negb (qload || (now <? h_until h)) then
-    payload_may_pass m || silent_inert o h
+    (* not under load: never a cookie reply; a fresh authentic initiation is processed without any MAC2;
+       whatever fails authentication is met with silence *)
+    negb (existsb (fun x => o_kind x =? 3) (s_outs o)) &&
+    (negb (payload_must_pass m) || is_processed o) &&
+    (payload_may_pass m || silent_inert o h)
   else
     (* under load *)
     (negb (is_processed o) || issued_recent h m vnow) &&
